@@ -1698,6 +1698,82 @@ def clean_item():
             "Definition gen_clean_stops_when_the_index_cannot_be_removed : bool := true.\n")
 
 
+def lowering_item():
+    """ExecutionPlanner.create_plan_for, second visit of a task: which Operation each task type is lowered to and with which
+    attributes.  One row per isinstance branch, in source order:
+      (task kind: 0 RunCommand, 1 RunExperiment, 2 Combine, 3 Group ;
+       operation class: 0 RunTaskExecutable, 1 CombineOutputs, 2 NoOp ;
+       parallelizable = the task's flag ; a new version is created and handed to the operation ; record_output ; serialize_args_options)
+    plus: the operation's dependencies are the output operations of the lowered dependencies, it joins initial_operations iff
+    it has none, one operation per task (num_tasks_to_run += 1)."""
+    f = _find_method("conductor/execution/planning/planner.py", "ExecutionPlanner", "create_plan_for")
+    second = [st for st in _walk_stmts(f.body) if isinstance(st, ast.If) and ast.unparse(st.test) == "lt.state == LoweringState.SECOND_VISIT"]
+    if len(second) != 1:
+        raise Unsupported("%d tests for the second visit" % len(second))
+    body = list(second[0].body)
+    if not body or not isinstance(body[0], ast.If):
+        raise Unsupported("the second visit does not start with the isinstance chain")
+    kinds = {"RunCommand": 0, "RunExperiment": 1, "Combine": 2, "Group": 3}
+    rows = []
+    node = body[0]
+    while True:
+        t = ast.unparse(node.test)
+        cls = t[len("isinstance(lt.task, "):-1] if t.startswith("isinstance(lt.task, ") else None
+        if cls not in kinds:
+            raise Unsupported("branch of the lowering chain: %s" % t)
+        new_ops = [st for st in node.body if isinstance(st, (ast.Assign, ast.AnnAssign)) and ast.unparse(st.target if isinstance(st, ast.AnnAssign) else st.targets[0]) == "new_op"]
+        if len(new_ops) != 1 or not isinstance(new_ops[0].value, ast.Call):
+            raise Unsupported("branch %s does not build exactly one operation" % cls)
+        call = new_ops[0].value
+        opcls = {"RunTaskExecutable": 0, "CombineOutputs": 1, "NoOp": 2}.get(ast.unparse(call.func))
+        if opcls is None:
+            raise Unsupported("branch %s builds a %s" % (cls, ast.unparse(call.func)))
+        kw = {k.arg: ast.unparse(k.value) for k in call.keywords}
+        if kw.get("task") != "lt.task" or kw.get("identifier") != "lt.task.identifier" or kw.get("initial_state") != "OperationState.QUEUED":
+            raise Unsupported("branch %s: the operation is not built for lt.task in state QUEUED" % cls)
+        creates = [ast.unparse(st) for st in node.body if "create_new_version" in ast.unparse(st)]
+        has_version = creates == ["exp_version = lt.task.create_new_version(self._ctx)"] and kw.get("version_to_record") == "exp_version"
+        if creates and not has_version:
+            raise Unsupported("branch %s creates a version it does not hand to the operation" % cls)
+        if not creates and kw.get("version_to_record", "None") != "None":
+            raise Unsupported("branch %s records a version it did not create" % cls)
+        if opcls == 0:
+            want = {"run": "lt.task.raw_run", "args": "lt.task.args", "options": "lt.task.options", "working_path": "lt.task.get_working_path(self._ctx)", "output_path": "output_path",
+                    "deps_output_paths": "lt.task.get_deps_output_paths(self._ctx)"}
+            for k, v in want.items():
+                if kw.get(k) != v:
+                    raise Unsupported("branch %s: %s=%s" % (cls, k, kw.get(k)))
+            if kw.get("parallelizable") not in ("lt.task.parallelizable",) or kw.get("record_output") not in ("True", "False") or kw.get("serialize_args_options") not in ("True", "False"):
+                raise Unsupported("branch %s: parallelizable / record_output / serialize_args_options are %r / %r / %r" % (cls, kw.get("parallelizable"), kw.get("record_output"), kw.get("serialize_args_options")))
+            par, rec, ser = True, kw["record_output"] == "True", kw["serialize_args_options"] == "True"
+        else:
+            if any(k in kw for k in ("parallelizable", "record_output", "version_to_record")):
+                raise Unsupported("branch %s passes execution attributes to a %s" % (cls, ast.unparse(call.func)))
+            par, rec, ser = False, False, False
+        if "output_path = lt.task.get_output_path(self._ctx)" not in [ast.unparse(st) for st in node.body] and opcls != 2:
+            raise Unsupported("branch %s does not take the task's own output path" % cls)
+        rows.append((kinds[cls], opcls, par, has_version, rec, ser))
+        if len(node.orelse) == 1 and isinstance(node.orelse[0], ast.If):
+            node = node.orelse[0]
+            continue
+        if not (len(node.orelse) == 1 and isinstance(node.orelse[0], ast.Raise)):
+            raise Unsupported("the lowering chain does not end by raising for an unknown task type")
+        break
+    rest = [ast.unparse(st) for st in body[1:] if not _is_logging(st)]
+    want_rest = ["for dep in lt.deps:\n    for dep_op in dep.output_ops:\n        new_op.add_exe_dep(dep_op)\n        dep_op.add_dep_of(new_op)", "lt.output_ops.append(new_op)",
+                 "if len(new_op.exe_deps) == 0:\n    initial_operations.append(new_op)", "all_ops.append(new_op)", "num_tasks_to_run += 1"]
+    if rest != want_rest:
+        raise Unsupported("after the lowering chain: %r" % [r.splitlines()[0] for r in rest])
+    base = [ast.unparse(x) for x in _body_without_docstring(_find_method("conductor/execution/ops/operation.py", "Operation", "parallelizable"))]
+    if base != ["return False"]:
+        raise Unsupported("Operation.parallelizable (the default of CombineOutputs / NoOp) is %r" % base)
+    b = lambda v: "true" if v else "false"  # noqa: E731
+    return ("(* conductor/execution/planning/planner.py create_plan_for, second visit: (task kind, (operation class, parallelizable from the task, new version, record_output, serialize_args_options)) *)\n"
+            "Definition gen_lowering : list (N * (N * bool * bool * bool * bool)) := [%s].\n"
+            "Definition gen_lowering_hooks_deps_then_initial_then_counts : bool := true.\n"
+            % "; ".join("(%d%%N, (%d%%N, %s, %s, %s, %s))" % (k, o, b(p_), b(v), b(r), b(s_)) for k, o, p_, v, r, s_ in rows))
+
+
 def version_item():
     """VersionIndex.generate_new_output_version: the timestamp as a function of the clock and the last timestamp"""
     f = _find_method("conductor/execution/version_index.py", "VersionIndex", "generate_new_output_version")
@@ -1762,7 +1838,7 @@ def generate():
         failures["task_type_table"] = "%s: %s" % (type(ex).__name__, ex)
         parts.append("(* task_type_table: NOT TRANSLATED: %s *)\n" % str(ex).replace("*)", "* )"))
     for coqname, fn in (("gen_gate_open", gate_item), ("gen_new_version", version_item), ("gen_loop_goes_on", loop_item), ("gen_wants_slot", slot_item),
-                        ("gen_prune", prune_item), ("gen_should_run", should_run_item), ("gen_sel_top", select_item), ("gen_validate_args", validate_args_item), ("gen_finish", finish_item), ("gen_record_type", record_type_item), ("gen_tee_iteration", tee_item), ("gen_env_overrides", spawn_item), ("gen_launch_block", abort_item), ("gen_combine_decision", combine_item), ("gen_gc_decision", gc_item), ("gen_restore_before_loop", restore_item), ("gen_archive_output_decision", archive_item), ("gen_deps_paths_step", deps_paths_item), ("gen_copy_query", copy_item), ("gen_ident_repr", ident_item), ("gen_where_decision", where_item), ("gen_enqueue_dependent", exec_decisions_item), ("gen_clean_removals", clean_item)):
+                        ("gen_prune", prune_item), ("gen_should_run", should_run_item), ("gen_sel_top", select_item), ("gen_validate_args", validate_args_item), ("gen_finish", finish_item), ("gen_record_type", record_type_item), ("gen_tee_iteration", tee_item), ("gen_env_overrides", spawn_item), ("gen_launch_block", abort_item), ("gen_combine_decision", combine_item), ("gen_gc_decision", gc_item), ("gen_restore_before_loop", restore_item), ("gen_archive_output_decision", archive_item), ("gen_deps_paths_step", deps_paths_item), ("gen_copy_query", copy_item), ("gen_ident_repr", ident_item), ("gen_where_decision", where_item), ("gen_enqueue_dependent", exec_decisions_item), ("gen_clean_removals", clean_item), ("gen_lowering", lowering_item)):
         try:
             parts.append(fn())
         except Exception as ex:  # pylint: disable=broad-except
